@@ -97,7 +97,16 @@ func buildOne(tc *treeCase) (out buildOut) {
 			}
 			ks = append(ks, k)
 		}
-		if tc.BanSplit {
+		if tc.BanReuse {
+			for _, b := range tc.Banned {
+				o, ok := sharedBanOptions[b]
+				if !ok {
+					o = core.WithBannedDirectives(kindByName[b])
+					sharedBanOptions[b] = o
+				}
+				opts = append(opts, o)
+			}
+		} else if tc.BanSplit {
 			for _, k := range ks {
 				opts = append(opts, core.WithBannedDirectives(k), core.WithBannedDirectives())
 			}
@@ -185,3 +194,7 @@ func cmdBuild(args []string) {
 		w.Flush()
 	}
 }
+
+// sharedBanOptions: Option values that live as long as the process (a caller may keep and reuse
+// the options it made; one build must not change what an option means for the next)
+var sharedBanOptions = map[string]core.Option{}
